@@ -1485,3 +1485,19 @@ mod tests {
 		assert_eq!(txs_broadcasted[0].lock_time.to_consensus_u32(), 2);
 	}
 }
+
+#[cfg(feature = "_verif")]
+#[allow(missing_docs)]
+pub mod verif_hooks {
+	use super::*;
+	use bitcoin::hashes::Hash;
+	pub fn onchain_event_threshold(height: u32, best_height: u32) -> (u32, bool) {
+		let entry = OnchainEventEntry {
+			txid: Txid::all_zeros(),
+			height,
+			block_hash: None,
+			event: OnchainEvent::Claim { claim_id: ClaimId([0; 32]) },
+		};
+		(entry.confirmation_threshold(), entry.has_reached_confirmation_threshold(best_height))
+	}
+}
